@@ -122,6 +122,8 @@ def cases(draw):
         atom = st.one_of(st.just(['hostkey']), st.just(['password']), st.just(['password']), st.just(['passphrase']),
                          st.just(['termtype']), st.just(['denied']), st.just(['closed']), st.just(['exit']),
                          st.just(['silence', 30]), st.just(shell),
+                         # a shell that prints its prompt and is gone after a few lines (connection lost right after login)
+                         st.builds(lambda k: shell + [k], st.sampled_from([0, 1, 2, 3, 4, 6])),
                          st.builds(lambda b: ['banner', b], st.sampled_from(BANNERS_CLEAN + BANNERS_TRICKY)))
         steps = draw(st.lists(atom, min_size=1, max_size=8))
         # a dialogue simply ends when the script ends: make the ending explicit
@@ -270,8 +272,9 @@ def check_case(case, col=None, sync_multiplier=0.4, T=1.5):
                                     'received a prompt-set command it honours' % where)
                 if not re.search(s.PROMPT, sets[-1]['data']):
                     raise Violation('prompt-not-set', '%s: PROMPT %r does not match the prompt now printed %r' % (where, s.PROMPT, sets[-1]['data']))
-                # prompt() delimits each command's output exactly
-                for cmd in case['commands']:
+                # prompt() delimits each command's output exactly (not asked of a shell scripted to go away)
+                dying = len(steps[-1]) > 3
+                for cmd in ([] if dying else case['commands']):
                     conv = (lambda x: x) if case['text_mode'] else (lambda x: x.encode('utf-8'))
                     s.sendline(cmd)
                     if not s.prompt(timeout=3):
@@ -281,7 +284,7 @@ def check_case(case, col=None, sync_multiplier=0.4, T=1.5):
                         raise Violation('prompt-delimits', '%s: after %r before=%r, the command echo + output is %r'
                                         % (where, cmd, s.before, conv(want)))
                     feats.add('commands-after-login')
-                r = s.prompt(timeout=0.3)
+                r = False if dying else s.prompt(timeout=0.3)
                 if r is not False:
                     raise Violation('prompt-without-prompt', '%s: prompt() returned %r although the shell printed no further prompt' % (where, r))
         else:
